@@ -31,6 +31,12 @@ pub fn classes(case: &MpcCase) -> Vec<String> {
     } else if f.ands > 1000 {
         c.push("multi_batch".into());
     }
+    if case.circ.max_reg_count > 65_536 {
+        c.push(">64Ki registers".into());
+    }
+    if case.circ.output_regs.iter().collect::<std::collections::BTreeSet<_>>().len() > 64 {
+        c.push(">64 unique outputs".into());
+    }
     if f.ands > 9000 {
         c.push("batch=ceil(ands/9)".into());
     }
@@ -84,7 +90,7 @@ pub fn test_case(case: &MpcCase) -> Result<CaseInfo, Fail> {
 
 pub fn run(tier: Tier, seed: u64) -> i32 {
     let ctx = Ctx::new("C01", tier, seed, "exploration");
-    ctx.set_rule("proptest: by-construction register circuits (reuse, NOT chains, x op x, outputs=inputs, dup outputs, zero-input parties; size classes incl. AND counts around the 1000-gate batch boundary) x uniform inputs x n in 2..5 x p_eval in 0..n x non-empty p_out subset x per-party tmp_dir x link capacity {inf,1,2} x schedule strategy; oracle = independent clear-text interpreter; non-trivial = >=1 AND gate or p_eval!=0 or evaluator not in p_out; distinct by hash of the full case");
+    ctx.set_rule("proptest: by-construction register circuits (reuse, NOT chains, x op x, outputs=inputs, dup outputs, zero-input parties; size classes incl. AND counts around the 1000-gate batch boundary, wide circuits with up to 160 outputs / 120 inputs, circuits with > 64Ki registers whose messages exceed 64 KiB) x uniform inputs x n in 2..5 x p_eval in 0..n x non-empty p_out subset x per-party tmp_dir x link capacity {inf,1,2} x schedule strategy; oracle = independent clear-text interpreter; non-trivial = >=1 AND gate or p_eval!=0 or evaluator not in p_out; distinct by hash of the full case");
     ctx.assume("reliable per-pair FIFO channels (SimNet); engine coins are not seeded, the oracle is coin-independent");
     let small = CaseParams {
         circ: CircParams { n_min: 2, n_max: 5, max_gates: 40, ..Default::default() },
@@ -106,6 +112,14 @@ pub fn run(tier: Tier, seed: u64) -> i32 {
     }
     if !ctx.stopped() {
         prop_search(&ctx, "boundary", n_boundary, || gen_case(boundary.clone()), test_case);
+    }
+    if !ctx.stopped() {
+        let wide = CaseParams { circ: CircParams::wide(2, 4), all_scheds: false, caps: vec![0, 1], tmp: true };
+        prop_search(&ctx, "wide", tier.pick(24, 400), || gen_case(wide.clone()), test_case);
+    }
+    if !ctx.stopped() {
+        let regs = CaseParams { circ: CircParams::huge_regs(2, 3), all_scheds: false, caps: vec![0, 1], tmp: true };
+        prop_search(&ctx, "huge_regs", tier.pick(12, 120), || gen_case(regs.clone()), test_case);
     }
     if tier == Tier::Thorough && !ctx.stopped() {
         let huge = CaseParams {
